@@ -328,7 +328,13 @@ def _send_chunked(cap: int | None, no_zstd: bool, body: bytes, token: str | None
     import waitress.server
 
     srv = waitress.server.create_server(_app(cap, no_zstd), host="127.0.0.1", port=0, threads=1, clear_untrusted_proxy_headers=True)
-    t = threading.Thread(target=srv.run, daemon=True)
+    def serve() -> None:
+        try:
+            srv.run()
+        except OSError:
+            pass  # the listening socket was closed under the select loop: that is how this server is stopped
+
+    t = threading.Thread(target=serve, daemon=True)
     t.start()
     try:
         port = srv.effective_port  # type: ignore[attr-defined]
@@ -344,6 +350,7 @@ def _send_chunked(cap: int | None, no_zstd: bool, body: bytes, token: str | None
         conn.close()
         return out
     finally:
+        srv.task_dispatcher.shutdown()  # let the worker thread finish its bookkeeping before the sockets go away
         srv.close()
         t.join(timeout=30)
 
@@ -411,6 +418,10 @@ def run_case(case: dict[str, Any]) -> Outcome:
         cls = "undecodable"
     else:
         allowed.add("same_as_uncoded")
+        if declared_over:
+            allowed.add(413)  # the header claims more than the cap: refusing on that claim is what the spec's precheck does
+        if b["lie"]:
+            allowed.add(400)  # a frame whose content-size field is wrong is invalid even if a lenient decoder lets it pass
         if unused:
             allowed.add(400)  # bytes after the first frame: rejecting them is as good as ignoring them
             # ... and so is decoding further frames: if the concatenation of all frames passes the cap, 413 is right too
